@@ -6,6 +6,7 @@ import (
 	"fmt"
 	"go/types"
 	"math"
+	"regexp"
 	"sort"
 	"strconv"
 	"strings"
@@ -237,6 +238,42 @@ func init() {
 		s := a[1].(StringVal)
 		return m.asciiOrUF("nfcnormal", m.stringTerms(s))
 	}
+	normString := func(m *Machine, fn *ssa.Function, a []Value) Value {
+		s := a[1].(StringVal)
+		ts := m.stringTerms(s)
+		ascii := m.tt.T
+		for _, b := range ts {
+			ascii = m.tt.And(ascii, m.tt.Ult(b, m.tt.Const(0x80, 8)))
+		}
+		if !ascii.IsTrue() {
+			if v, ok := m.knownVal(ascii); !ok || !v {
+				// only ASCII (where NFC is the identity) is modelled
+				if !m.branch(ascii) {
+					m.unsupported("norm.NFC.String on non-ASCII symbolic string")
+				}
+			}
+		}
+		return s
+	}
+	I["(golang.org/x/text/unicode/norm.Form).String"] = normString
+	I["(golang.org/x/text/unicode/norm.Form).Bytes"] = func(m *Machine, fn *ssa.Function, a []Value) Value {
+		s := a[1].(SliceVal)
+		normString(m, fn, []Value{a[0], m.mkString(m.sliceTerms(s))})
+		return s
+	}
+	// ---- regexp: opaque compiled pattern; matching of the one pattern used on symbolic input ----
+	I["regexp.MustCompile"] = func(m *Machine, fn *ssa.Function, a []Value) Value {
+		m.path.opaqueID++
+		return Ptr{C: &Cell{T: fn.Signature.Results().At(0).Type().(*types.Pointer).Elem(), ID: -1, Obj: a[0].(StringVal).S}}
+	}
+	I["(*regexp.Regexp).MatchString"] = func(m *Machine, fn *ssa.Function, a []Value) Value {
+		pat, _ := a[0].(Ptr).C.Obj.(string)
+		return m.regexMatch(pat, m.stringTerms(a[1].(StringVal)))
+	}
+	I["(*regexp.Regexp).Match"] = func(m *Machine, fn *ssa.Function, a []Value) Value {
+		pat, _ := a[0].(Ptr).C.Obj.(string)
+		return m.regexMatch(pat, m.sliceTerms(a[1].(SliceVal)))
+	}
 	// ---- sort ----
 	I["sort.Slice"] = func(m *Machine, fn *ssa.Function, a []Value) Value {
 		m.sortSlice(a[0].(IfaceVal).V.(SliceVal), a[1].(*Closure))
@@ -367,6 +404,37 @@ func init() {
 		m.assume(m.tt.Ult(v, n))
 		return v
 	}
+}
+
+func (m *Machine) regexMatch(pat string, bs []*Term) Value {
+	tt := m.tt
+	conc := true
+	b := make([]byte, len(bs))
+	for i, t := range bs {
+		if !t.IsConst() {
+			conc = false
+			break
+		}
+		b[i] = byte(t.C)
+	}
+	if conc {
+		re, err := regexp.Compile(pat)
+		if err != nil {
+			m.unsupported("regexp " + pat)
+		}
+		return tt.Bool(re.Match(b))
+	}
+	if pat != "^[a-zA-Z0-9]*$" {
+		m.unsupported("regexp on symbolic input: " + pat)
+	}
+	res := tt.T
+	in := func(x *Term, lo, hi byte) *Term {
+		return tt.And(tt.Ule(tt.Const(uint64(lo), 8), x), tt.Ule(x, tt.Const(uint64(hi), 8)))
+	}
+	for _, x := range bs {
+		res = tt.And(res, tt.Or(in(x, '0', '9'), tt.Or(in(x, 'a', 'z'), in(x, 'A', 'Z'))))
+	}
+	return res
 }
 
 func isErrorValue(m *Machine, iv IfaceVal) bool {
